@@ -46,6 +46,7 @@ from bitproto.errors import (
     ImportInMessageUnsupported,
     InternalError,
     InvalidArrayCap,
+    LexerError,
     MessageFieldInEnumUnsupported,
     MessageInEnumUnsupported,
     OptionInEnumUnsupported,
@@ -168,7 +169,17 @@ class Parser:
     def parse(self, filepath: str) -> Proto:
         """Parse a bitproto from given file."""
         with open(filepath) as f:
-            return self.parse_string(f.read(), filepath=filepath)
+            try:
+                content = f.read()
+            except UnicodeDecodeError as e:
+                # Not a text file in the expected encoding.
+                raise LexerError(
+                    message=f"Invalid character encoding, {e.reason}",
+                    filepath=filepath,
+                    token=repr(e.object[e.start : e.end]),
+                    lineno=e.object.count(b"\n", 0, e.start) + 1,
+                )
+        return self.parse_string(content, filepath=filepath)
 
     def parse_child(self, filepath: str) -> Proto:
         """Parse a child bitproto from given file.
